@@ -101,6 +101,8 @@ def build(hist):
         elif k == 'schedule':
             before = {n: a.server for n, a in cell.apps.items()}
             states = {n: s.state for n, s in cell.members().items()}
+            since = {n: s.get_state()[1] for n, s in cell.members().items()}
+            check.since = since
             try:
                 cell.schedule()
             except Exception as ex:   # noqa
@@ -191,6 +193,18 @@ def check(cell, before, states):
             if before.get(an) != a.server and states.get(a.server) is not S.State.up:
                 errs.append('%s newly placed on %s which is %s' % (an, a.server, states.get(a.server)))
     elif PROP == 'C08':
+        now = CLOCK.now
+        for an, a in cell.apps.items():
+            srv = before.get(an)
+            if (srv in states and states[srv] is S.State.down and not a.blacklisted and
+                    a.final_rank != S._UNPLACED_RANK and a.data_retention_timeout is not None and
+                    check.since[srv] + a.data_retention_timeout > now and a.server != srv):
+                errs.append('%s lost its placement on down server %s before its retention timeout '
+                            '(down since %.0f, retention %s, now %.0f)' % (an, srv, check.since[srv],
+                                                                         a.data_retention_timeout, now))
+            if (srv in states and states[srv] is S.State.frozen and not a.blacklisted and
+                    a.final_rank != S._UNPLACED_RANK and a.server != srv):
+                errs.append('%s left frozen server %s' % (an, srv))
         for an, a in cell.apps.items():
             if a.blacklisted and a.server is not None:
                 errs.append('blacklisted %s is placed on %s' % (an, a.server))
@@ -213,7 +227,7 @@ def rand_history(rng):
         if c < 0.35:
             n += 1
             h.append(('app', 'p.a#%d' % n, rng.choice([None, None, 'p2']), rng.choice([None, 'a1']),
-                      rng.choice([0, 1, 10, 50]), [rng.choice([1, 2]) for _ in range(3)],
+                      rng.choice([0, 1, 10, 50]), [rng.choice([0, 1, 1, 2, 2, 3]) for _ in range(3)],
                       rng.choice(['p.a', 'p.b']), rng.choice([None, {'server': 1}, {'rack': 1}, {'cell': 2}]),
                       rng.choice([None, None, 'g']), rng.choice([0, 50, None]), rng.choice([0, 0, 500]),
                       rng.choice([0, 0, 2])))
